@@ -13,6 +13,47 @@ func init() {
 	verifEntries["VerifC18Ints"] = VerifC18Ints
 	verifEntries["VerifC18LPM"] = VerifC18LPM
 	verifEntries["VerifC18Strings"] = VerifC18Strings
+	verifEntries["VerifC18Long"] = VerifC18Long
+}
+
+// longKey returns a key of symbolic length lo..hi whose first and last bytes
+// are symbolic and whose other bytes are 'x' (so the encoded length straddles
+// the point where the 2-byte primary-length suffix needs its high byte).
+func longKey(tag string, lo, hi int) []byte {
+	n := vnd.IntRange(tag+".len", lo, hi)
+	k := make([]byte, n)
+	for i := range k {
+		k[i] = 'x'
+	}
+	k[0] = vnd.Byte(tag + ".first")
+	k[n-1] = vnd.Byte(tag + ".last")
+	return k
+}
+
+// VerifC18Long: the composite key for primaries whose encoded length is around
+// 256 bytes (the length suffix is two bytes wide).
+func VerifC18Long() {
+	LO, HI := vnd.Param("LO", 254), vnd.Param("HI", 257)
+	s1, s2 := vnd.Bytes("s1", 1), vnd.Bytes("s2", 1)
+	p1, p2 := longKey("p1", LO, HI), longKey("p2", LO, HI)
+	k1 := encodeNonUniqueKey(p1, s1)
+	k2 := encodeNonUniqueKey(p2, s2)
+	cs, cp := bytes.Compare(s1, s2), bytes.Compare(p1, p2)
+	want := vnd.IteInt(cs != 0, cs, cp)
+	vnd.Assert(sign(bytes.Compare(k1, k2)) == want, "C18.long.order")
+	vnd.Assert(vnd.Iff(bytes.Equal(k1, k2), vnd.And(bytes.Equal(s1, s2), bytes.Equal(p1, p2))), "C18.long.injective")
+	n := nonUniqueKey(k1)
+	vnd.Assert(bytes.Equal(n.encodedSecondary(), encodeNonUniqueBytes(s1)), "C18.long.split.secondary")
+	vnd.Assert(bytes.Equal(n.encodedPrimary(), encodeNonUniqueBytes(p1)), "C18.long.split.primary")
+	vnd.Assert(n.secondaryLen() == encodedLength(s1), "C18.long.seclen")
+	vnd.Assert(n.primaryLen() == encodedLength(p1), "C18.long.prilen")
+	if encodedLength(p1) >= 256 {
+		vnd.Cover("C18.long.high-byte")
+	}
+	if encodedLength(p1) < 256 {
+		vnd.Cover("C18.long.low-byte-only")
+	}
+	vnd.Cover("C18.long.end")
 }
 
 func sign(x int) int {
